@@ -42,13 +42,13 @@ theorem parseUsePath_sound (hV : SemverAgree) {st st' : PState} {p : UsePath} (h
     cases h2
     have hag := pkgPathAt_agree hV (tokAt st) (hwf.shape hk)
     rw [hp] at hag
-    refine ⟨rfl, len_of_peekTok hk, ?_⟩
+    refine ⟨rfl, len_of_nextTok hk, ?_⟩
     simp [gUsePath, mem_gPackagePath, hk, eraseUsePath, ← hag]
   · rename_i hk
     simp only [Except.bind_eq_ok, Prod.exists, parseIdent_eq_ok] at h
     obtain ⟨id, st1, ⟨_, rfl, rfl⟩, h2⟩ := h
     cases h2
-    refine ⟨rfl, len_of_peekTok hk, ?_⟩
+    refine ⟨rfl, len_of_nextTok hk, ?_⟩
     simp [gUsePath, mem_gId, hk, eraseUsePath, erase_identAt]
   · cases h
 
@@ -57,13 +57,13 @@ theorem parseUseItem_sound (st : PState) (u : UseItem) (st' : PState)
   simp only [parseUseItem, Except.bind_eq_ok, Prod.exists, parseIdent_eq_ok] at h
   obtain ⟨id, st1, ⟨h1, rfl, rfl⟩, o, st2, ho, h3⟩ := h
   cases h3
-  have l1 := len_of_peekTok h1
+  have l1 := len_of_nextTok h1
   rw [parseOptional_eq_ok] at ho
   rcases ho with ⟨hp, a, ha, rfl⟩ | ⟨hnp, _, rfl, rfl⟩
   · rw [parseIdent_eq_ok] at ha
     obtain ⟨h2, rfl, rfl⟩ := ha
-    have l2 := len_of_peekTok hp
-    have l3 := len_of_peekTok h2
+    have l2 := len_of_nextTok hp
+    have l3 := len_of_nextTok h2
     refine ⟨(Suf.adv _).trans ((Suf.adv _).trans (Suf.adv _)), by omega, ?_⟩
     intro gf hgf
     simp [gUseItem, h1, hp, h2, mem_gId, and_assoc, eraseUseItem, erase_identAt]
@@ -78,7 +78,7 @@ theorem list0_sound {α β : Type} (stop : Token) (peeks : List Token) (item : P
     (hitem : ∀ st x st1, item st = .ok (x, st1) → Sound er p 0 st x st1)
     (pf : Nat) (st : PState) (xs : List α) (st3 : PState)
     (hd : parseDelimited stop true peeks item pf st = .ok (xs, st3)) :
-    Suf st3 st ∧ peekTok st3 = some stop ∧
+    Suf st3 st ∧ nextTok st3 = some stop ∧
     ∀ gf, st.toks.length ≤ st3.toks.length + gf → (xs.map er, abs st3) ∈ list0 (p gf) gf (abs st) := by
   obtain ⟨hs3, hp3, hl3⟩ := parseDelimited_struct _ _ _ _
     (fun st x st1 hx => ⟨(hitem st x st1 hx).1, (hitem st x st1 hx).2.1⟩) _ _ _ _ hd
@@ -102,11 +102,11 @@ theorem parseUse_sound (hV : SemverAgree) {pf : Nat} {st st' : PState} {u : Use}
   obtain ⟨rfl, l2, hm2⟩ := parseUsePath_sound hV hwf.adv hpath
   obtain ⟨hs5, _, hm5⟩ := list0_sound .CloseBrace [.Ident] parseUseItem eraseUseItem (fun _ => gUseItem)
     parseUseItem_sound pf _ _ _ hd
-  have l1 := len_of_peekTok h1
-  have l3 := len_of_peekTok h3
-  have l4 := len_of_peekTok h4
-  have l6 := len_of_peekTok h6
-  have l7 := len_of_peekTok h7
+  have l1 := len_of_nextTok h1
+  have l3 := len_of_nextTok h3
+  have l4 := len_of_nextTok h4
+  have l6 := len_of_nextTok h6
+  have l7 := len_of_nextTok h7
   have l5 := hs5.len
   refine ⟨(Suf.adv _).trans ((Suf.adv _).trans (hs5.trans ((Suf.adv _).trans ((Suf.adv _).trans
     ((Suf.adv _).trans (Suf.adv _)))))), by omega, ?_⟩
@@ -125,9 +125,9 @@ theorem parseInterfaceExport_sound {pf : Nat} {st st' : PState} {e : InterfaceEx
   obtain ⟨id, st1, ⟨h1, rfl, rfl⟩, t2, st2, ⟨h2, rfl, rfl⟩, ty, st3, hty, t4, st4, ⟨h4, rfl, rfl⟩, h5⟩ := h
   cases h5
   obtain ⟨hs3, hl3, hm3⟩ := parseFuncTypeRef_sound _ _ _ _ hty
-  have l1 := len_of_peekTok h1
-  have l2 := len_of_peekTok h2
-  have l4 := len_of_peekTok h4
+  have l1 := len_of_nextTok h1
+  have l2 := len_of_nextTok h2
+  have l4 := len_of_nextTok h4
   refine ⟨(Suf.adv _).trans (hs3.trans ((Suf.adv _).trans (Suf.adv _))), by omega, ?_⟩
   intro gf hgf
   simp only [gInterfaceItem, alt_apply, List.mem_append]
@@ -172,7 +172,7 @@ theorem many_sound {α β : Type} (stop : Token) (peeks : List Token) (item : PS
     (hitem : ∀ st x st1, WF st → item st = .ok (x, st1) → Sound er p 0 st x st1)
     (pf : Nat) (st : PState) (xs : List α) (st3 : PState) (hwf : WF st)
     (hd : parseDelimited stop false peeks item pf st = .ok (xs, st3)) :
-    Suf st3 st ∧ peekTok st3 = some stop ∧
+    Suf st3 st ∧ nextTok st3 = some stop ∧
     ∀ gf, st.toks.length ≤ st3.toks.length + gf → (xs.map er, abs st3) ∈ many (p gf) gf (abs st) := by
   have hInv : ∀ st st', WF st → Suf st' st → WF st' := fun _ _ h hs => h.suf hs
   obtain ⟨hs3, hp3, hl3, _⟩ := parseDelimited_nocommas_sound_inv stop peeks item er (p 0) WF hInv 0
@@ -191,7 +191,7 @@ theorem many_sound {α β : Type} (stop : Token) (peeks : List Token) (item : PS
 theorem interfaceItems_sound (hV : SemverAgree) {pf : Nat} {st st3 : PState} {xs : List InterfaceItem}
     (hwf : WF st)
     (hd : parseDelimited .CloseBrace false interfaceItemPeeks (parseInterfaceItem pf) pf st = .ok (xs, st3)) :
-    Suf st3 st ∧ peekTok st3 = some .CloseBrace ∧
+    Suf st3 st ∧ nextTok st3 = some .CloseBrace ∧
     ∀ gf, st.toks.length ≤ st3.toks.length + gf →
       (xs.map eraseInterfaceItem, abs st3) ∈ many (gInterfaceItem gf) gf (abs st) :=
   many_sound .CloseBrace interfaceItemPeeks (parseInterfaceItem pf) eraseInterfaceItem gInterfaceItem
@@ -204,9 +204,9 @@ theorem parseInlineInterface_sound (hV : SemverAgree) {pf : Nat} {st st' : PStat
   obtain ⟨t1, st1, ⟨h1, rfl, rfl⟩, t2, st2, ⟨h2, rfl, rfl⟩, items, st3, hd, t4, st4, ⟨h4, rfl, rfl⟩, h5⟩ := h
   cases h5
   obtain ⟨hs3, _, hm3⟩ := interfaceItems_sound hV hwf.adv.adv hd
-  have l1 := len_of_peekTok h1
-  have l2 := len_of_peekTok h2
-  have l4 := len_of_peekTok h4
+  have l1 := len_of_nextTok h1
+  have l2 := len_of_nextTok h2
+  have l4 := len_of_nextTok h4
   have l3 := hs3.len
   refine ⟨(Suf.adv _).trans (hs3.trans ((Suf.adv _).trans (Suf.adv _))), by omega, ?_⟩
   intro gf hgf
@@ -221,10 +221,10 @@ theorem parseInterfaceDecl_sound (hV : SemverAgree) {pf : Nat} {st st' : PState}
     t5, st5, ⟨h5, rfl, rfl⟩, h6⟩ := h
   cases h6
   obtain ⟨hs4, _, hm4⟩ := interfaceItems_sound hV hwf.adv.adv.adv hd
-  have l1 := len_of_peekTok h1
-  have l2 := len_of_peekTok h2
-  have l3 := len_of_peekTok h3
-  have l5 := len_of_peekTok h5
+  have l1 := len_of_nextTok h1
+  have l2 := len_of_nextTok h2
+  have l3 := len_of_nextTok h3
+  have l5 := len_of_nextTok h5
   have l4 := hs4.len
   refine ⟨(Suf.adv _).trans (hs4.trans ((Suf.adv _).trans ((Suf.adv _).trans (Suf.adv _)))), by omega, ?_⟩
   intro gf hgf
@@ -255,7 +255,7 @@ theorem parseExternType_sound (hV : SemverAgree) {pf : Nat} {st st' : PState} {x
     simp only [Except.bind_eq_ok, Prod.exists, parseIdent_eq_ok] at h
     obtain ⟨id, st1, ⟨_, rfl, rfl⟩, h2⟩ := h
     cases h2
-    have l1 := len_of_peekTok hk
+    have l1 := len_of_nextTok hk
     refine ⟨Suf.adv _, by omega, fun gf hgf => ?_⟩
     simp only [gExternType, alt_apply, List.mem_append]
     right
@@ -289,7 +289,7 @@ theorem parseWorldItemPath_sound (hV : SemverAgree) {pf : Nat} {st st' : PState}
     cases h2
     have hag := pkgPathAt_agree hV (tokAt st) (hwf.shape hk)
     rw [hp] at hag
-    have l1 := len_of_peekTok hk
+    have l1 := len_of_nextTok hk
     refine ⟨Suf.adv _, by omega, fun gf hgf => ?_⟩
     rw [gWorldItemPath_eq]
     simp only [alt_apply, List.mem_append]
@@ -303,8 +303,8 @@ theorem parseWorldItemPath_sound (hV : SemverAgree) {pf : Nat} {st st' : PState}
       obtain ⟨n, st1, ⟨id, st2, ⟨_, rfl, rfl⟩, t3, st3, ⟨_, rfl, rfl⟩, ty, st4, hty, h5⟩, h6⟩ := h
       cases h5; cases h6
       obtain ⟨hs, hl, hm⟩ := parseExternType_sound hV hwf.adv.adv hty
-      have l1 := len_of_peekTok hk
-      have l2 := len_of_peekTok hc
+      have l1 := len_of_nextTok hk
+      have l2 := len_of_nextTok hc
       refine ⟨hs.trans ((Suf.adv _).trans (Suf.adv _)), by omega, fun gf hgf => ?_⟩
       rw [gWorldItemPath_eq]
       simp only [alt_apply, List.mem_append]
@@ -314,7 +314,7 @@ theorem parseWorldItemPath_sound (hV : SemverAgree) {pf : Nat} {st st' : PState}
     · simp only [Except.bind_eq_ok, Prod.exists, parseIdent_eq_ok] at h
       obtain ⟨id, st1, ⟨_, rfl, rfl⟩, h2⟩ := h
       cases h2
-      have l1 := len_of_peekTok hk
+      have l1 := len_of_nextTok hk
       refine ⟨Suf.adv _, by omega, fun gf hgf => ?_⟩
       rw [gWorldItemPath_eq]
       simp only [alt_apply, List.mem_append]
@@ -355,13 +355,13 @@ theorem parseWorldRef_sound (hV : SemverAgree) {st st' : PState} {w : WorldRef} 
     cases h2
     have hag := pkgPathAt_agree hV (tokAt st) (hwf.shape hk)
     rw [hp] at hag
-    refine ⟨rfl, len_of_peekTok hk, ?_⟩
+    refine ⟨rfl, len_of_nextTok hk, ?_⟩
     simp [gWorldRef, mem_gPackagePath, hk, eraseWorldRef, ← hag]
   · rename_i hk
     simp only [Except.bind_eq_ok, Prod.exists, parseIdent_eq_ok] at h
     obtain ⟨id, st1, ⟨_, rfl, rfl⟩, h2⟩ := h
     cases h2
-    refine ⟨rfl, len_of_peekTok hk, ?_⟩
+    refine ⟨rfl, len_of_nextTok hk, ?_⟩
     simp [gWorldRef, mem_gId, hk, eraseWorldRef, erase_identAt]
   · cases h
 
@@ -371,9 +371,9 @@ theorem parseWorldIncludeItem_sound (st : PState) (i : WorldIncludeItem) (st' : 
   simp only [parseWorldIncludeItem, Except.bind_eq_ok, Prod.exists, parseIdent_eq_ok, parseToken_eq_ok] at h
   obtain ⟨a, st1, ⟨h1, rfl, rfl⟩, t2, st2, ⟨h2, rfl, rfl⟩, b, st3, ⟨h3, rfl, rfl⟩, h4⟩ := h
   cases h4
-  have l1 := len_of_peekTok h1
-  have l2 := len_of_peekTok h2
-  have l3 := len_of_peekTok h3
+  have l1 := len_of_nextTok h1
+  have l2 := len_of_nextTok h2
+  have l3 := len_of_nextTok h3
   refine ⟨(Suf.adv _).trans ((Suf.adv _).trans (Suf.adv _)), by omega, fun gf hgf => ?_⟩
   simp [gIncludeItem, h1, h2, h3, mem_gId, and_assoc, eraseWorldIncludeItem, erase_identAt]
 
@@ -384,8 +384,8 @@ theorem parseWorldImport_sound (hV : SemverAgree) {pf : Nat} {st st' : PState} {
   obtain ⟨t1, st1, ⟨h1, rfl, rfl⟩, p, st2, hp, t3, st3, ⟨h3, rfl, rfl⟩, h4⟩ := h
   cases h4
   obtain ⟨hs, hl, hm⟩ := parseWorldItemPath_sound hV hwf.adv hp
-  have l1 := len_of_peekTok h1
-  have l3 := len_of_peekTok h3
+  have l1 := len_of_nextTok h1
+  have l3 := len_of_nextTok h3
   refine ⟨(Suf.adv _).trans (hs.trans (Suf.adv _)), by omega, fun gf hgf => ?_⟩
   rw [gWorldItem_eq]
   simp only [alt_apply, List.mem_append]
@@ -400,8 +400,8 @@ theorem parseWorldExport_sound (hV : SemverAgree) {pf : Nat} {st st' : PState} {
   obtain ⟨t1, st1, ⟨h1, rfl, rfl⟩, p, st2, hp, t3, st3, ⟨h3, rfl, rfl⟩, h4⟩ := h
   cases h4
   obtain ⟨hs, hl, hm⟩ := parseWorldItemPath_sound hV hwf.adv hp
-  have l1 := len_of_peekTok h1
-  have l3 := len_of_peekTok h3
+  have l1 := len_of_nextTok h1
+  have l3 := len_of_nextTok h3
   refine ⟨(Suf.adv _).trans (hs.trans (Suf.adv _)), by omega, fun gf hgf => ?_⟩
   rw [gWorldItem_eq]
   simp only [alt_apply, List.mem_append]
@@ -416,8 +416,8 @@ theorem parseWorldInclude_sound (hV : SemverAgree) {pf : Nat} {st st' : PState} 
   obtain ⟨t1, st1, ⟨h1, rfl, rfl⟩, w, st2, hw, o, st3, ho, t4, st4, ⟨h4, rfl, rfl⟩, h5⟩ := h
   cases h5
   obtain ⟨rfl, l2, hm2⟩ := parseWorldRef_sound hV hwf.adv hw
-  have l1 := len_of_peekTok h1
-  have l4 := len_of_peekTok h4
+  have l1 := len_of_nextTok h1
+  have l4 := len_of_nextTok h4
   rw [parseOptional_eq_ok] at ho
   rcases ho with ⟨hwith, items, hi, rfl⟩ | ⟨hnw, _, rfl, rfl⟩
   · simp only [Except.bind_eq_ok, Prod.exists, parseToken_eq_ok] at hi
@@ -425,9 +425,9 @@ theorem parseWorldInclude_sound (hV : SemverAgree) {pf : Nat} {st st' : PState} 
     cases h8
     obtain ⟨hs6, _, hm6⟩ := list0_sound .CloseBrace [.Ident] parseWorldIncludeItem eraseWorldIncludeItem
       (fun _ => gIncludeItem) parseWorldIncludeItem_sound pf _ _ _ hd
-    have l3 := len_of_peekTok hwith
-    have l5 := len_of_peekTok h5
-    have l7 := len_of_peekTok h7
+    have l3 := len_of_nextTok hwith
+    have l5 := len_of_nextTok h5
+    have l7 := len_of_nextTok h7
     have l6 := hs6.len
     refine ⟨(Suf.adv _).trans ((Suf.adv _).trans (hs6.trans ((Suf.adv _).trans ((Suf.adv _).trans
       ((Suf.adv _).trans (Suf.adv _)))))), by omega, fun gf hgf => ?_⟩
@@ -497,10 +497,10 @@ theorem parseWorldDecl_sound (hV : SemverAgree) {pf : Nat} {st st' : PState} {d 
   cases h6
   obtain ⟨hs4, _, hm4⟩ := many_sound .CloseBrace worldItemPeeks (parseWorldItem pf) eraseWorldItem gWorldItem
     (fun _ _ _ hw hx => parseWorldItem_sound hV hw hx) pf _ _ _ hwf.adv.adv.adv hd
-  have l1 := len_of_peekTok h1
-  have l2 := len_of_peekTok h2
-  have l3 := len_of_peekTok h3
-  have l5 := len_of_peekTok h5
+  have l1 := len_of_nextTok h1
+  have l2 := len_of_nextTok h2
+  have l3 := len_of_nextTok h3
+  have l5 := len_of_nextTok h5
   have l4 := hs4.len
   refine ⟨(Suf.adv _).trans (hs4.trans ((Suf.adv _).trans ((Suf.adv _).trans (Suf.adv _)))), by omega, ?_⟩
   intro gf hgf
@@ -578,7 +578,7 @@ theorem parseImportType_sound (hV : SemverAgree) {pf : Nat} {st st' : PState} {x
     cases h2
     have hag := pkgPathAt_agree hV (tokAt st) (hwf.shape hk)
     rw [hp] at hag
-    have l1 := len_of_peekTok hk
+    have l1 := len_of_nextTok hk
     refine ⟨Suf.adv _, by omega, fun gf hgf => ?_⟩
     simp only [gImportType, alt_apply, List.mem_append]
     left; left; left
@@ -587,7 +587,7 @@ theorem parseImportType_sound (hV : SemverAgree) {pf : Nat} {st st' : PState} {x
     simp only [Except.bind_eq_ok, Prod.exists, parseIdent_eq_ok] at h
     obtain ⟨id, st1, ⟨_, rfl, rfl⟩, h2⟩ := h
     cases h2
-    have l1 := len_of_peekTok hk
+    have l1 := len_of_nextTok hk
     refine ⟨Suf.adv _, by omega, fun gf hgf => ?_⟩
     simp only [gImportType, alt_apply, List.mem_append]
     right
@@ -601,17 +601,17 @@ theorem parseImportStatement_sound (hV : SemverAgree) {pf : Nat} {st st' : PStat
   obtain ⟨t1, st1, ⟨h1, rfl, rfl⟩, id, st2, ⟨h2, rfl, rfl⟩, name, st3, hn, t4, st4, ⟨h4, rfl, rfl⟩,
     ty, st5, hty, t6, st6, ⟨h6, rfl, rfl⟩, h7⟩ := h
   cases h7
-  have l1 := len_of_peekTok h1
-  have l2 := len_of_peekTok h2
-  have l4 := len_of_peekTok h4
-  have l6 := len_of_peekTok h6
+  have l1 := len_of_nextTok h1
+  have l2 := len_of_nextTok h2
+  have l4 := len_of_nextTok h4
+  have l6 := len_of_nextTok h6
   rw [parseOptional_eq_ok] at hn
   rcases hn with ⟨has, n, hn, rfl⟩ | ⟨hnas, _, rfl, rfl⟩
-  · have l3 := len_of_peekTok has
+  · have l3 := len_of_nextTok has
     rw [parseExternName_eq_ok] at hn
     rcases hn with ⟨kn, rfl, rfl⟩ | ⟨kn, rfl, rfl⟩
     all_goals
-      have l3' := len_of_peekTok kn
+      have l3' := len_of_nextTok kn
       obtain ⟨hs, hl, hm⟩ := parseImportType_sound hV hwf.adv.adv.adv.adv.adv hty
       refine ⟨(Suf.adv _).trans (hs.trans ((Suf.adv _).trans ((Suf.adv _).trans ((Suf.adv _).trans
         ((Suf.adv _).trans (Suf.adv _)))))), by omega, fun gf hgf => ?_⟩
